@@ -21,6 +21,7 @@ package dag
 import (
 	"encoding/base64"
 	"fmt"
+	"math"
 	"time"
 
 	"github.com/lestrrat-go/jwx/v2/jwa"
@@ -203,6 +204,9 @@ func parseLamportClock(transaction *transaction, headers jws.Headers, _ *jws.Mes
 		// won't happen since it's a critical header, but we need to check the cast anyway
 		return transactionValidationError(missingHeaderErrFmt, lamportClockHeader)
 	} else if lcAsFloat64, ok := lcAsInterf.(float64); !ok {
+		return transactionValidationError(invalidHeaderErrFmt, lamportClockHeader)
+	} else if lcAsFloat64 < 0 || lcAsFloat64 > math.MaxUint32 || lcAsFloat64 != math.Trunc(lcAsFloat64) {
+		// must be an integer that fits a uint32, the conversion below is not defined otherwise
 		return transactionValidationError(invalidHeaderErrFmt, lamportClockHeader)
 	} else {
 		transaction.lamportClock = uint32(lcAsFloat64)
